@@ -180,8 +180,8 @@ class C01(Prop):
                   'what the receiver-side reassembly delivers per stream is exactly the frames handed to the library for that stream: each once, in order, content and flags intact, nothing from another stream '
                   '(composes C03 fragmentation/reassembly, C05 send-queue order, and deliver_proj: the fragment cache treats interleaved streams independently); c01_transport — with a round-tripping codec any chunking of the '
                   'length-prefixed byte stream parses to the same frames (instance of C04); c01_end_to_end — both together; c01_drainable (the drain hypothesis is satisfiable for every input); '
-                  'c01_response_reaches_its_requester and c01_dispatch_by_stream_id on the engine model. The codec enters c01_end_to_end as the hypothesis parse(enc f) = [f], which C02 proves on the byte-level frame type; '
-                  'the bridge between the two frame records, handler dispatch above reassembly, and timing are covered by the correspondence run only: a real client and a real server joined by a simulated link, '
+                  'c01_response_reaches_its_requester and c01_dispatch_by_stream_id on the engine model. c01_end_to_end_bytes closes the codec hypothesis with the C02 encoder/decoder themselves (Proofs/Bridge.lean: bridge, onWire_toFrames, encF_length): frames within the wire ranges, real serialisation of every fragment, any chunking. '
+                  'Which subscriber a reassembled frame reaches is stated on the engine model only; timing and asyncio scheduling are outside the models. Correspondence run: a real client and a real server joined by a simulated link, '
                   'all five interaction models from both sides, payloads of 0 bytes to several fragments, both framings, harness-chosen delivery order and read chunking.')
     level_note = 'Trusted: as C02–C05 and C07; that asyncio runs the sender/receiver tasks in one of the modelled orders is covered by the full-stack run only.'
     design_ref = '§5 C01'
